@@ -78,6 +78,13 @@ func Harness_C06_q_wire_and_roundtrip() {
 	lens := c06Lens()
 	msgs := 1 + verif.Choice("messages", 2)
 	ctr := uint64(0)
+	if verif.Choice("start-counter", 2) == 1 {
+		// any position in a long-lived session: the nonce carries all 64 bits of the counter
+		ctr = verif.U64("c0")
+		verif.Assume(ctr < 0xffffffffffffff00)
+		sender.(*secureSession).encryptCount = ctr
+		receiver.(*secureSession).decryptCount = ctr
+	}
 	for i := 0; i < msgs; i++ {
 		n := lens[verif.Choice("len"+string(rune('0'+i)), len(lens))]
 		payload := verif.Bytes("p"+string(rune('0'+i)), n)
